@@ -111,7 +111,7 @@ pub fn run_program(
         stats: Default::default(),
         end: res.end.clone(),
         panics: res.panic_messages(),
-        leaked: res.leaked_threads.len(),
+        leaked: if res.leak_certified { res.leaked_threads.len() } else { 0 },
         wall: res.wall,
         log: res.log,
     };
